@@ -530,7 +530,7 @@ func c19Units(tier string) []Unit {
 	add("rejected-by-cycle", nil, prefixChild, rings, false)
 	// failures: every single constructor fault at depth 1-3, also through groups; missing types arise by not providing
 	chain := alpha{scopes: []int{0, 1}, ctors: []*uFunc{D("DAe"), D("DBe"), D("DCe"), D("DD"), D("DBn")}, invokes: []*uFunc{iA, iB, iC, iD, DiCeSpec}}
-	groups := alpha{scopes: []int{0, 1}, ctors: []*uFunc{D("DG1e"), D("DG2"), D("DCge"), D("DD"), D("DM")}, invokes: []*uFunc{iG, iC, iD}}
+	groups := alpha{scopes: []int{0, 1}, ctors: []*uFunc{D("DG1e"), D("DG2"), D("DCge"), D("DD"), D("DM"), D("DG22"), D("DFl")}, invokes: []*uFunc{iG, iC, iD}}
 	for _, beh := range []u.Beh{u.BehErr, u.BehPanic} {
 		for _, f := range []string{"DAe", "DBe", "DCe", "DiCe"} {
 			add(fmt.Sprintf("fault-chain/%s=%v", f, beh), map[string][]u.Beh{f: {beh}}, prefixChild, chain, true)
